@@ -61,30 +61,34 @@ func tryEvalCheck(r *rep.Run, kleene bool) {
 		h := hs[w]
 		r.Note(w, p.Src)
 		k := len(p.Vars)
-		if k > 10 {
-			return
+		if k > 6 {
+			return // (only some of the hand-made wide programs; every enumerated tree has <= 6 variables)
 		}
 		cs := compileAll(r, h, p, opts)
-		// per-variable domains: typed values (index 0,1) + optional ill-typed (index 2)
-		dsz := 2
-		if withIll {
-			dsz = 3
-		}
+		// per-variable domains: the two typed values, a non-canonical Go int
+		// for integers (a fetcher may hand back exactly what the caller
+		// stored), and in the thorough tier one ill-typed value; available
+		// and unavailable variables range over the whole domain
 		dom := make([][]interface{}, k)
+		rad := make([]int, k)
 		for v := range p.Vars {
 			dom[v] = drive.Domain(p.Vars[v].Ty, false)
+			if !kleene && p.Vars[v].Ty == term.TI {
+				dom[v] = append(dom[v], int(1))
+			}
 			if withIll {
 				dom[v] = append(dom[v], illTyped(p.Vars[v].Ty))
 			}
+			rad[v] = len(dom[v])
 		}
 		total := 1
 		for v := 0; v < k; v++ {
-			total *= dsz
+			total *= rad[v]
 		}
 		decode := func(idx int, vals []interface{}) {
 			for v := 0; v < k; v++ {
-				vals[v] = dom[v][idx%dsz]
-				idx /= dsz
+				vals[v] = dom[v][idx%rad[v]]
+				idx /= rad[v]
 			}
 		}
 		vals := make([]interface{}, k)
@@ -99,10 +103,10 @@ func tryEvalCheck(r *rep.Run, kleene bool) {
 				decode(idx, vals)
 				typed := true
 				for v, x := idx, 0; x < k; x++ {
-					if v%dsz == 2 {
+					if v%rad[x] >= 2 {
 						typed = false
 					}
-					v /= dsz
+					v /= rad[x]
 				}
 				typedOnly[idx] = typed
 				copy(c.f.Vals, vals)
@@ -120,18 +124,20 @@ func tryEvalCheck(r *rep.Run, kleene bool) {
 				for v := 0; v < k; v++ {
 					avail[v] = mask&(1<<v) != 0
 				}
-				// enumerate typed assignments to available variables (unavailable fixed at index 0)
-				for asg := 0; asg < 1<<k; asg++ {
-					if asg&^mask != 0 {
+				// enumerate assignments to the available variables (unavailable ones fixed at index 0)
+				for idx := 0; idx < total; idx++ {
+					skip := false
+					for v, x := idx, 0; x < k; x++ {
+						if !avail[x] && v%rad[x] != 0 {
+							skip = true
+							break
+						}
+						v /= rad[x]
+					}
+					if skip {
 						continue
 					}
-					idx, mul := 0, 1
-					for v := 0; v < k; v++ {
-						if asg&(1<<v) != 0 {
-							idx += mul
-						}
-						mul *= dsz
-					}
+					asg := idx
 					decode(idx, vals)
 					copy(c.f.Vals, vals)
 					c.f.Avail = avail
@@ -162,12 +168,12 @@ func tryEvalCheck(r *rep.Run, kleene bool) {
 							match := true
 							f, a := full, idx
 							for v := 0; v < k; v++ {
-								if avail[v] && f%dsz != a%dsz {
+								if avail[v] && f%rad[v] != a%rad[v] {
 									match = false
 									break
 								}
-								f /= dsz
-								a /= dsz
+								f /= rad[v]
+								a /= rad[v]
 							}
 							if !match || table[full].Err != nil || table[full].Panic != nil {
 								continue
@@ -190,7 +196,16 @@ func tryEvalCheck(r *rep.Run, kleene bool) {
 							// monotonicity: every sub-split with the same values on its available part
 							for sub := mask; ; sub = (sub - 1) & mask {
 								if sub != mask {
-									if v, ok := definite[key{sub, asg & sub}]; ok && !ref.ValEqual(v, got.Val) {
+									// the same values restricted to the smaller available set
+									rest, mul, x := 0, 1, asg
+									for v := 0; v < k; v++ {
+										if sub&(1<<v) != 0 {
+											rest += (x % rad[v]) * mul
+										}
+										x /= rad[v]
+										mul *= rad[v]
+									}
+									if v, ok := definite[key{sub, rest}]; ok && !ref.ValEqual(v, got.Val) {
 										r.Violate("non-monotone", p.Src+c.o.String(), sprintf("TryEval answered %v with fewer variables available and answers %v with more", v, got.Val), d(nil))
 									}
 								}
